@@ -1,11 +1,11 @@
 #!/bin/sh
-# tools/dev2.sh <tier> CNN... : try the WORKING-TREE harnesses of /verif in the second workspace (/root/w2),
-# against the unpatched /repo HEAD, without touching /verif/build (a sweep may be using it)
+# tools/dev2.sh <tier> CNN... : run checks in the second workspace (/root/w2/verif, with whatever edits its
+# working tree has) against the unpatched /repo HEAD, without touching /verif (a sweep may be using it).
+# Edit harnesses THERE while a sweep runs, then copy the finished file to /verif/harness and commit.
 export VERIF_SEEDED=1
 T=$1; shift
 W=/root/w2
 git -C $W/repo checkout -q -- . ; git -C $W/repo checkout -q --detach $(git -C /repo rev-parse HEAD) || exit 2
-rsync -a /verif/harness/ $W/verif/harness/; rsync -a /verif/engine/ $W/verif/engine/; cp /verif/vcheck.py /verif/known_findings.json $W/verif/
 export VERIF_REPO=$W/repo
 cd $W/verif || exit 2
 for c in "$@"; do
@@ -14,4 +14,3 @@ for c in "$@"; do
   grep -A2 '^VIOLATION' build/dev_$c.log | grep 'signature\|message' | cut -c1-400 | head -6
   grep 'error:\|BUILD FAILED\|MACHINERY' build/dev_$c.log | head -5
 done
-git -C $W/verif checkout -- . 2>/dev/null
